@@ -274,11 +274,13 @@ class SymNum:
         return SymBool(self.t != l.t)
 
     def __hash__(self):
-        c = cur()
-        c.events.append(("hash", "SymNum"))
-        # hashing a symbolic number would make the result depend on its value
-        # in a way the engine does not model
-        raise EngineError("hash() of a symbolic number")
+        # recorded: a result that depends on the hash of a number is flagged by C14; the
+        # structural hash lets dict/set operations proceed (equal terms collide and are then
+        # compared with ==, which forks)
+        c = _CUR
+        if c is not None:
+            c.events.append(("hash", "SymNum"))
+        return self.t.hash()
 
     def __bool__(self):
         return cur().decide(self.t != 0)
@@ -386,10 +388,14 @@ class RAlg(_Alg):
         if op == "-":
             return SymNum(a.t - b.t, k)
         if op == "*":
-            return SymNum(a.t * b.t, k)
+            r = a.t * b.t
+            self._magnitude(r)
+            return SymNum(r, k)
         if op == "/":
             self.ctx.safety_check("div-nonzero", b.t != 0)
-            return SymNum(a.t / b.t, KFLOAT)
+            r = a.t / b.t
+            self._magnitude(r)
+            return SymNum(r, KFLOAT)
         if op == "**":
             e = z3.simplify(b.t)
             if z3.is_rational_value(e):
@@ -405,11 +411,22 @@ class RAlg(_Alg):
                         self.ctx.safety_check("div-nonzero", a.t != 0)
                         t = 1 / t
                         k = KFLOAT
+                    self._magnitude(t, "power-no-overflow")
                     return SymNum(t, k)
                 if fr == fractions.Fraction(1, 2):
                     return self.fn("sqrt", a)
             raise EngineError(f"unsupported power {b!r}")
         raise EngineError(op)
+
+    _BIG = None
+
+    def _magnitude(self, r, what="product-no-overflow"):
+        """a float product / quotient / power must stay within the finite range (Python's ** even
+        raises OverflowError); only generated when safety obligations are on"""
+        if self.ctx.safety:
+            if RAlg._BIG is None:
+                RAlg._BIG = z3.RealVal("1" + "0" * 300)
+            self.ctx.safety_check(what, z3.And(r <= RAlg._BIG, r >= -RAlg._BIG))
 
     def fn(self, name, a):
         a = SymNum.lift(a)
@@ -556,6 +573,19 @@ class SymMath:
         if isinstance(x, SymNum):
             return False
         return _math.isnan(x)
+
+    def isclose(self, a, b, *, rel_tol=1e-09, abs_tol=0.0):
+        if not any(isinstance(v, (SymNum, SymBool)) for v in (a, b, rel_tol, abs_tol)):
+            return _math.isclose(a, b, rel_tol=rel_tol, abs_tol=abs_tol)
+        la, lb = SymNum.lift(a), SymNum.lift(b)
+        d = z3.If(la.t >= lb.t, la.t - lb.t, lb.t - la.t)
+        aa = z3.If(la.t >= 0, la.t, -la.t)
+        ab = z3.If(lb.t >= 0, lb.t, -lb.t)
+        big = z3.If(aa >= ab, aa, ab)
+        tol = term(rel_tol) * big
+        at = term(abs_tol)
+        # documented formula of math.isclose, over the reals (rounding of the products ignored)
+        return SymBool(z3.Or(la.t == lb.t, d <= z3.If(tol >= at, tol, at)))
 
     def __getattr__(self, name):
         f = getattr(_math, name)
